@@ -293,3 +293,71 @@ Proof.
   intros code name Hin. unfold lang_table in Hin.
   repeat (destruct Hin as [Heq|Hin]; [inversion Heq; subst; reflexivity|]). contradiction.
 Qed.
+
+(* ================= references of cues and runs ================= *)
+Definition opt_in {V} (m : list (str * V)) (r : option str) : Prop :=
+  match r with Some k => map_mem k m = true | None => True end.
+
+Lemma opt_ref_in {V} (m : list (str * V)) k : null k || map_mem k m = true -> opt_in m (opt_ref k).
+Proof. destruct k as [|c r]; [intros _; exact I|]. cbn [null orb opt_ref opt_in]. auto. Qed.
+
+Lemma lines_of_run_in ts : forall l r, In l (lines_of ts) -> In r l -> In (TRun r) ts.
+Proof.
+  induction ts as [|t ts IH]; intros l r Hl Hr; cbn [lines_of] in Hl.
+  - destruct Hl as [<-|[]]. contradiction.
+  - destruct t as [|x].
+    + destruct Hl as [<-|Hl]; [contradiction|]. right. exact (IH l r Hl Hr).
+    + destruct (lines_of ts) as [|l0 ls] eqn:E.
+      * destruct Hl as [<-|[]]. destruct Hr as [<-|[]]. left. reflexivity.
+      * destruct Hl as [<-|Hl].
+        -- destruct Hr as [<-|Hr]; [left; reflexivity|]. right. apply (IH l0 r); [left; reflexivity | exact Hr].
+        -- right. apply (IH l r); [right; exact Hl | exact Hr].
+Qed.
+
+Lemma run_toks_style {V} (styles : list (str * V)) it r : item_style_ok styles it = true -> In (TRun r) (run_toks it) ->
+  opt_in styles (tr_style r).
+Proof.
+  unfold item_style_ok, run_toks. intros Hok Hin. destruct (is_br (in_local it)); [destruct Hin as [H|[]]; discriminate|].
+  cbn [orb] in Hok.
+  assert (Hall : forall t, In t (map (fun t => TRun (mkRun t (opt_ref (in_style it)) (in_attrs it))) (split_byte 10 (in_text it))) ->
+                 forall r', t = TRun r' -> opt_in styles (tr_style r')).
+  { intros t Ht r' ->. apply in_map_iff in Ht. destruct Ht as (x & Hx & _). inversion Hx; subst. cbn [tr_style]. apply opt_ref_in. exact Hok. }
+  destruct (map _ (split_byte 10 (in_text it))) as [|t0 ts] eqn:E; [contradiction|].
+  destruct Hin as [Heq|Hin]; [apply (Hall t0); [left; reflexivity | exact Heq]|].
+  apply in_flat_map in Hin. destruct Hin as (t & Ht & Hin). destruct Hin as [H|[H|[]]]; [discriminate|].
+  apply (Hall t); [right; exact Ht | exact H].
+Qed.
+
+Lemma read_p_refs st rg fr tr p it : read_p st rg fr tr p = Ok it ->
+  opt_in rg (ti_region it) /\ opt_in st (ti_style it) /\
+  Forall (Forall (fun r => opt_in st (tr_style r))) (ti_lines it).
+Proof.
+  unfold read_p. destruct (dur_attr s_begin _) as [[b|]|]; try discriminate.
+  destruct (dur_attr s_end _) as [[e|]|]; try discriminate. destruct (tt_read_attrs _) as [ta|]; try discriminate.
+  destruct (null (attr_str s_region (elem_attrs p)) || map_mem (attr_str s_region (elem_attrs p)) rg) eqn:E1; cbn [negb]; [|discriminate].
+  destruct (null (attr_str s_style (elem_attrs p)) || map_mem (attr_str s_style (elem_attrs p)) st) eqn:E2; cbn [negb]; [|discriminate].
+  destruct (items_of _) as [its|]; [|discriminate]. destruct (forallb (item_style_ok st) its) eqn:E3; [|discriminate].
+  intros H. inversion H; subst. cbn [ti_region ti_style ti_lines].
+  split; [apply opt_ref_in; exact E1|]. split; [apply opt_ref_in; exact E2|].
+  rewrite Forall_forall. intros l Hl. rewrite Forall_forall. intros r Hr.
+  pose proof (lines_of_run_in _ l r Hl Hr) as Hin. apply in_flat_map in Hin. destruct Hin as (x & Hx & Hin).
+  rewrite forallb_forall in E3. exact (run_toks_style st x r (E3 x Hx) Hin).
+Qed.
+
+(* every reference the reader returns - a cue's region and style, a run's style - names an entry of the
+   document's tables (unresolved references are errors) *)
+Theorem refs_closed root d : read_ttml root = Ok d ->
+  Forall (fun it => opt_in (td_regions d) (ti_region it) /\ opt_in (td_styles d) (ti_style it) /\
+                    Forall (Forall (fun r => opt_in (td_styles d) (tr_style r))) (ti_lines it)) (td_items d).
+Proof.
+  destruct root as [s|nm al ks]; [discriminate|]. cbn [read_ttml].
+  destruct (negb _); [discriminate|].
+  destruct (int_attr s_frameRate al); [|discriminate]. destruct (int_attr s_tickRate al); [|discriminate].
+  destruct (map_res read_header (path_elems [s_head; s_layout; s_region] ks)) as [rgs|k|s]; cbn [bind]; try discriminate.
+  destruct (map_res read_header (path_elems [s_head; s_styling; s_style] ks)) as [sts|k|s]; cbn [bind]; try discriminate.
+  destruct (negb _); [discriminate|]. destruct (negb _); [discriminate|].
+  match goal with |- context [map_res ?g ?l] => destruct (map_res g l) as [items|k|s] eqn:E end; cbn [bind]; try discriminate.
+  intros H. inversion H; subst. cbn [td_regions td_styles td_items].
+  rewrite Forall_forall. intros it Hit. destruct (map_res_ok_in _ _ _ E it Hit) as (p & _ & Hp).
+  exact (read_p_refs _ _ _ _ p it Hp).
+Qed.
